@@ -17,7 +17,11 @@ fn std_dir() -> PathBuf {
 pub fn expand() -> Result<(), PathError> {
     let std_dir = std_dir();
 
+    #[cfg(all(veryl_verif, unix))]
+    veryl_path::verif::point("std:before-exists-check", &std_dir);
     if !std_dir.exists() {
+        #[cfg(all(veryl_verif, unix))]
+        veryl_path::verif::point("std:missing", &std_dir);
         ignore_already_exists(fs::create_dir_all(&std_dir))?;
 
         let lock = veryl_path::lock_dir(&std_dir)?;
@@ -31,6 +35,17 @@ pub fn expand() -> Result<(), PathError> {
                 fs::create_dir_all(parent)?;
             }
 
+            #[cfg(all(veryl_verif, unix))]
+            {
+                veryl_path::verif::point("std:before-file-write", &path);
+                if std::env::var_os("VERYL_VERIF_CRASH_AT").is_some()
+                    || std::env::var_os("VERYL_VERIF_SOCK").is_some()
+                {
+                    let data: &[u8] = content.data.as_ref();
+                    let _ = fs::write(&path, &data[..data.len() / 2]);
+                    veryl_path::verif::point("std:file-half-written", &path);
+                }
+            }
             fs::write(&path, content.data.as_ref())?;
         }
 
